@@ -27,6 +27,8 @@ def make_class(kind, fmt, akind, sign, k):
     m = PerCPUArrayMap() if kind == "percpu" else ArrayMap()
     afmt = "q" if FMTS[fmt] == 8 else "i"
     ns = dict(license="GPL", m=m, v=m.globalVar(fmt), a1=m.globalVar(afmt), a2=m.globalVar(afmt))
+    if akind.startswith("fix"):
+        ns["xa"] = m.globalVar("x")                     # a fixed-point amount (scaled down before it is added)
     if kind == "local":
         ns["loc"] = LocalVar(fmt)
     if kind == "dictval":
@@ -41,6 +43,11 @@ def make_class(kind, fmt, akind, sign, k):
         if akind == "reg":
             self.r3 = self.a1
             return self.r3
+        if akind == "fixvar":
+            return self.xa
+        if akind == "fixreg":
+            self.x[3] = self.xa
+            return self.x[3]
         return self.a1 + self.a2                       # expression reading other variables
 
     def program(self):
@@ -97,6 +104,15 @@ def shapes(ctx):
                     out.append((kind, fmt, "const", sign, k))
                 for akind in ("reg", "expr"):
                     out.append((kind, fmt, akind, sign, 7 if akind == "reg" else None))
+    # a fixed-point amount (variable or x register) added to an integer variable: converted, then added atomically.
+    # Only `+=`: `-=` negates the amount BEFORE the conversion, and dividing a negative raw value by 100000 is the
+    # known finding F1x (unsigned division; C02's subject, 96 deterministic miscalculations here, no lost update)
+    for kind in ("map", "local", "mem"):
+        for fmt in FMTS:
+            if fmt == "x":
+                continue
+            for akind in ("fixvar", "fixreg"):
+                out.append((kind, fmt, akind, 1, 7))
     # raw memory reached through every register a program may use for an address
     for no in (2, 4, 6, 8, 9):
         for fmt in FMTS:
@@ -124,6 +140,7 @@ def run(ctx):
         vs = b.maps[0]["vs"]
         a1, a2 = (11, -4) if akind == "expr" else (k if akind == "reg" else 0, 0)
         amount = k if akind != "expr" else a1 + a2
+        xa = k * 100000 if akind.startswith("fix") else None
         M = 1 << (8 * size)
         inits = [0, 1, M - 2, M // 2 - 1] if ctx.quick else [0, 1, M - 2, M // 2 - 1, M - 1,
                                                               ctx.rng.randrange(M)]
@@ -135,6 +152,8 @@ def run(ctx):
             asz = 8 if size == 8 else 4
             buf[inst.__dict__["a1"]:inst.__dict__["a1"] + asz] = word(a1, asz)
             buf[inst.__dict__["a2"]:inst.__dict__["a2"] + asz] = word(a2, asz)
+            if xa is not None:
+                buf[inst.__dict__["xa"]:inst.__dict__["xa"] + 8] = word(xa, 8)
             hashes = []
             if kind == "dictval":
                 dfd = next(j + 1 for j, mm in enumerate(b.maps) if mm["type"] == "hash")
